@@ -6,10 +6,6 @@ Import ListNotations.
 Local Open Scope Z_scope.
 
 (* ---- counting over the finite support ---- *)
-Fixpoint tsum (w : pc -> Z) (f : Z -> pc) (l : list Z) : Z :=
-  match l with [] => 0 | u :: l' => w (f u) + tsum w f l' end.
-Definition cnt (w : pc -> Z) (s : gst) : Z := tsum w (pcs s) (seen s).
-
 Lemma tsum_upd_notin w f t p l : ~ In t l -> tsum w (upd f t p) l = tsum w f l.
 Proof.
   induction l as [|a l IH]; cbn; intros H; [reflexivity|].
@@ -66,29 +62,7 @@ Proof. intros H. apply (support_set_pc s u PWStart H). Qed.
 Lemma cnt_create w s u : support_ok s -> w PNone = 0 -> pcs s u = PNone -> cnt w (do_create s u) = cnt w s + w PWStart.
 Proof. intros H W0 E. change (cnt w (do_create s u)) with (cnt w (set_pc s u PWStart)). rewrite cnt_set_pc by assumption. rewrite E, W0. lia. Qed.
 
-(* ---- weights ---- *)
-Definition is_slow (p : pc) : Z := match p with PSemTimed | PSemLoad | PSemUndo _ | PSemBlocked => 1 | _ => 0 end.
-Definition is_sigpost (p : pc) : Z := match p with PSigPost _ _ _ => 1 | _ => 0 end.
-(* who accounts for one unit of dgq_pending: a poke between its request and the creation of the thread, a created
-   thread that has not started, a worker backing off in the contended wait *)
-Definition w_pend (p : pc) : Z :=
-  match p with
-  | PPoolLoad _ _ _ | PPoolLoop _ _ _ _ | PCreate _ _ | PWStart | PCwEval _ true | PCwEvalT true _ | PCwOut _ => 1
-  | _ => 0
-  end.
-Definition ctxw (c : ctx) : Z := match c with CIn _ => 1 | COut => 0 end.
-Definition kw (k : kont) : Z := match k with KClient c => ctxw c | KGot _ | KNull => 1 | KExit => 0 end.
-(* 1 for a thread of the pool that has not yet given its slot back *)
-Definition wk (p : pc) : Z :=
-  match p with
-  | PNone => 0
-  | PClient c | PPushCall c | PPushXchg c _ | PPushLink c _ _ => ctxw c
-  | PPokeProbe k _ _ | PSigInc k _ _ | PSigPost k _ _ | PPendReq k _ _ | PPoolLoad k _ _ | PPoolLoop k _ _ _ | PCreate k _ => kw k
-  | _ => 1
-  end.
-(* who accounts for one unit taken from dgq_thread_pool_size: a live pool thread, a pthread_create in flight *)
-Definition w_pool (p : pc) : Z := wk p + match p with PCreate _ _ => 1 | _ => 0 end.
-
+(* ---- weights: is_slow, is_sigpost, w_pend, wk, w_pool are defined in Model/RootQ.v ---- *)
 Lemma weights_nonneg : (forall p, 0 <= is_slow p) /\ (forall p, 0 <= is_sigpost p) /\ (forall p, 0 <= w_pend p) /\
   (forall p, 0 <= wk p) /\ (forall p, 0 <= w_pool p).
 Proof.
